@@ -164,17 +164,17 @@ def emit(case, d):
                 continue
             L.append(f"  call e{i}_u{s}")
             tail.append(f'.section .text.u{i}_{s},"ax",@progbits\ne{i}_u{s}:')
-            for u in us:
+            for k, u in enumerate(us):
                 name = f"undef_{u['sym']}"
                 undef_pairs.add((name, f"o{i}.o"))
                 if u["data"]:
-                    tail.append(f"  lea d{i}_{s}_{u['sym']}(%rip), %rax")
+                    tail.append(f"  lea d{i}_{s}_{k}(%rip), %rax")
                 else:
                     tail.append(f"  call {name}")
             tail.append("  ret")
-            for u in us:
+            for k, u in enumerate(us):
                 if u["data"]:
-                    tail.append(f'.section .data.u{i}_{s}_{u["sym"]},"aw",@progbits\nd{i}_{s}_{u["sym"]}: .quad undef_{u["sym"]}')
+                    tail.append(f'.section .data.u{i}_{s}_{k},"aw",@progbits\nd{i}_{s}_{k}: .quad undef_{u["sym"]}')
                     tail.append(f'.section .text.u{i}_{s},"ax",@progbits')
         for s in range(2):
             vs = [v for v in p["ovf"] if v["sec"] == s]
